@@ -126,6 +126,8 @@ DOk(l, r, from, fixMustBeAuthorized, up) ==
     ELSE LET i == Min(V) IN
          /\ Tolerated(l, i)
          /\ (fixMustBeAuthorized => Authorized(l, FixOf(l, i), up))
+         \* propagation entries recorded between the violation and its fix are not part of the repair: each must be authorised
+         /\ \A m \in (i + 1)..(FixOf(l, i) - 1) : (l[m].k = "prop" /\ l[m].ref = r) => Authorized(l, m, up)
          /\ DOk(l, r, FixOf(l, i) + 1, fixMustBeAuthorized, up)
 
 \* C02: every policy entry a verification up to position `upto` depends on is chain- and self-valid
